@@ -76,6 +76,11 @@ def gen_scenario(rng):
             args.append({"kind": "gridprop", "access": "go_read",
                          "pt": pick(rng, GRID_PROPS), "actual": None,
                          "stencil": None})
+        if len(args) > 1 and args[1]["kind"] == "field" and \
+                rng.random() < 0.3:
+            # the argument that decides the iteration space is the first one
+            # that is *written*, not necessarily the first in the list
+            args[0], args[1] = args[1], args[0]
         kernels.append({"name": kname, "offset": koff, "iterates_over": its,
                         "args": args})
         calls.append(ci)
@@ -83,6 +88,16 @@ def gen_scenario(rng):
         calls.append(rng.randrange(len(kernels)))   # same kernel twice
     return {"offset": offset, "fields": fields, "spaces": spaces,
             "kernels": kernels, "calls": calls}
+
+
+def space_arg(kern):
+    """The kernel argument that fixes the iteration space: the first field
+    argument with write access."""
+    for a in kern["args"]:
+        if a["kind"] == "field" and a["access"] in ("go_write",
+                                                    "go_readwrite"):
+            return a
+    return kern["args"][0]
 
 
 def kernel_text(kern):
